@@ -194,7 +194,8 @@ class SSHConfig:
         # do we need to add whitespace between match and end of line to ensure we match correctly?
         hosts_pattern = re.compile(r"^\s*host[\s=]+(.*)$", flags=re.I | re.M)
         hostname_pattern = re.compile(r"^\s*hostname[\s=]+([\w.-]*)$", flags=re.I | re.M)
-        port_pattern = re.compile(r"^\s*port[\s=]+([\d]*)$", flags=re.I | re.M)
+        # at least one digit: a "port" keyword without a value must not end up in int("")
+        port_pattern = re.compile(r"^\s*port[\s=]+([\d]+)$", flags=re.I | re.M)
         user_pattern = re.compile(r"^\s*user[\s=]+([\w]*)$", flags=re.I | re.M)
         # address_family_pattern = None
         # bind_address_pattern = None
